@@ -42,9 +42,12 @@ pub struct Graph {
     /// per enum node: 0 = no field-less enumerator, 1 = one before the enumerators with fields,
     /// 2 = one after them, 3 = one in between (after the first)
     pub leaf: Vec<u8>,
+    /// the nodes are spread over two modules that repeat each other's simple names (M1::N0, M2::N0,
+    /// M1::N1, ...) and refer to each other by globally qualified names
+    pub two_modules: bool,
 }
 
-fn wrap(target: &str, wrapper: usize, aliases: &mut Vec<DefM>) -> TypeM {
+fn wrap(target: &str, wrapper: usize, aliases: &mut Vec<DefM>, two_modules: bool) -> TypeM {
     let t = TypeM::named(target);
     match wrapper {
         0 => t,
@@ -63,7 +66,8 @@ fn wrap(target: &str, wrapper: usize, aliases: &mut Vec<DefM>) -> TypeM {
                 name: name.clone(),
                 ty: TypeM::seq(t),
             }));
-            TypeM::named(&name)
+            // (aliases live in the first file's module)
+            TypeM::named(&if two_modules { format!("::M1::{name}") } else { name })
         }
     }
 }
@@ -71,13 +75,20 @@ fn wrap(target: &str, wrapper: usize, aliases: &mut Vec<DefM>) -> TypeM {
 /// Builds the program of a containment graph.  Returns it with, for every field path, its
 /// (owner node, target node).
 pub fn graph_program(g: &Graph) -> (Program, BTreeMap<String, (usize, usize)>) {
-    let mut defs: Vec<DefM> = Vec::new();
+    let two = g.two_modules;
+    let nfiles = if two { 2 } else { 1 };
+    let file_of = |i: usize| if two { i % 2 } else { 0 };
+    let simple = |i: usize| if two { format!("N{}", i / 2) } else { format!("N{i}") };
+    let spelled = |i: usize| if two { format!("::M{}::N{}", 1 + i % 2, i / 2) } else { format!("N{i}") };
+    let mut file_defs: Vec<Vec<DefM>> = vec![Vec::new(); nfiles];
     let mut aliases: Vec<DefM> = Vec::new();
     let mut fields_of: BTreeMap<String, (usize, usize)> = BTreeMap::new();
     for i in 0..g.n {
         let out: Vec<&(usize, usize, usize)> = g.edges.iter().filter(|e| e.0 == i).collect();
-        let name = format!("N{i}");
-        let di = defs.len();
+        let name = simple(i);
+        let fi = file_of(i);
+        let di = file_defs[fi].len();
+        let defs = &mut file_defs[fi];
         if g.is_enum[i] {
             let mut enumerators = Vec::new();
             let leaf_mode = g.leaf.get(i).copied().unwrap_or(0);
@@ -92,9 +103,9 @@ pub fn graph_program(g: &Graph) -> (Program, BTreeMap<String, (usize, usize)>) {
                 enumerators.push(leaf(0));
             }
             for (k, e) in out.iter().enumerate() {
-                let ty = wrap(&format!("N{}", e.1), e.2, &mut aliases);
+                let ty = wrap(&spelled(e.1), e.2, &mut aliases, two);
                 let at = enumerators.len();
-                fields_of.insert(format!("f0/d{di}/m{at}/m0"), (i, e.1));
+                fields_of.insert(format!("f{fi}/d{di}/m{at}/m0"), (i, e.1));
                 enumerators.push(EnumeratorM {
                     pre: Prelude::default(),
                     name: format!("V{k}"),
@@ -136,8 +147,8 @@ pub fn graph_program(g: &Graph) -> (Program, BTreeMap<String, (usize, usize)>) {
         } else {
             let mut fields = Vec::new();
             for (k, e) in out.iter().enumerate() {
-                let ty = wrap(&format!("N{}", e.1), e.2, &mut aliases);
-                fields_of.insert(format!("f0/d{di}/m{k}"), (i, e.1));
+                let ty = wrap(&spelled(e.1), e.2, &mut aliases, two);
+                fields_of.insert(format!("f{fi}/d{di}/m{k}"), (i, e.1));
                 fields.push(FieldM {
                     pre: Prelude::default(),
                     tag: None,
@@ -153,23 +164,40 @@ pub fn graph_program(g: &Graph) -> (Program, BTreeMap<String, (usize, usize)>) {
             }));
         }
     }
-    defs.extend(aliases);
+    file_defs[0].extend(aliases);
     let p = Program {
-        files: vec![FileM {
-            path: "string-0".into(),
-            file_attrs: vec![],
-            module: Some(ModuleM {
-                attrs: vec![],
-                path: vec!["M".into()],
-            }),
-            defs,
-        }],
+        files: file_defs
+            .into_iter()
+            .enumerate()
+            .map(|(k, defs)| FileM {
+                path: format!("string-{k}"),
+                file_attrs: vec![],
+                module: Some(ModuleM {
+                    attrs: vec![],
+                    path: vec![if two { format!("M{}", k + 1) } else { "M".into() }],
+                }),
+                defs,
+            })
+            .collect(),
     };
     (p, fields_of)
 }
 
-fn span_start(d: &DiagObs) -> Option<(usize, usize)> {
-    d.span.as_ref().map(|s| s.0)
+/// Path of node `i` in the program of `g` (`f<file>/d<index in the file>`).
+pub fn node_path(g: &Graph, i: usize) -> String {
+    if g.two_modules {
+        format!("f{}/d{}", i % 2, i / 2)
+    } else {
+        format!("f0/d{i}")
+    }
+}
+
+fn file_no(name: &str) -> usize {
+    name.rsplit('-').next().and_then(|k| k.parse().ok()).unwrap_or(0)
+}
+
+fn span_start(d: &DiagObs) -> Option<(usize, (usize, usize))> {
+    d.span.as_ref().map(|s| (file_no(&s.2), s.0))
 }
 
 pub fn containment_oracle(cx: &mut CaseCtx, g: &Graph) -> CaseResult {
@@ -187,6 +215,7 @@ pub fn containment_oracle(cx: &mut CaseCtx, g: &Graph) -> CaseResult {
     }
     let on_cycle: BTreeSet<usize> = nodes_on_cycles(&edges).iter().map(|s| s[1..].parse().unwrap()).collect();
     cx.label(if on_cycle.is_empty() { "acyclic" } else { "cyclic" });
+    cx.label_if(g.two_modules && !on_cycle.is_empty(), "cycle-across-two-modules-with-equal-names");
     for (_, _, w) in &g.edges {
         cx.label(format!("wrapper-{}", WRAPPER_NAMES[*w]));
     }
@@ -226,9 +255,14 @@ pub fn containment_oracle(cx: &mut CaseCtx, g: &Graph) -> CaseResult {
         );
     }
     // map positions back to nodes and fields
-    let r = &rendered[0];
-    let node_at: BTreeMap<(usize, usize), usize> = (0..g.n).map(|i| (r.tok_start(r.elems[&format!("f0/d{i}")].first), i)).collect();
-    let field_at: BTreeMap<(usize, usize), &String> = fields_of.keys().map(|path| (r.tok_start(r.elems[path].first), path)).collect();
+    let file_of_path = |path: &str| -> usize { path[1..].split('/').next().and_then(|k| k.parse().ok()).unwrap_or(0) };
+    let start_of = |path: &str| -> (usize, (usize, usize)) {
+        let f = file_of_path(path);
+        let r = &rendered[f];
+        (f, r.tok_start(r.elems[path].first))
+    };
+    let node_at: BTreeMap<(usize, (usize, usize)), usize> = (0..g.n).map(|i| (start_of(&node_path(g, i)), i)).collect();
+    let field_at: BTreeMap<(usize, (usize, usize)), &String> = fields_of.keys().map(|path| (start_of(path), path)).collect();
     let mut named: BTreeSet<usize> = BTreeSet::new();
     for d in &e032 {
         let Some(start) = span_start(d) else {
@@ -244,7 +278,7 @@ pub fn containment_oracle(cx: &mut CaseCtx, g: &Graph) -> CaseResult {
             let Some(span) = span else {
                 fail!("cycle-chain-note-without-span", "note {ni} of the E032 for N{root} has no span: {msg}");
             };
-            let Some(path) = field_at.get(&span.0) else {
+            let Some(path) = field_at.get(&(file_no(&span.2), span.0)) else {
                 fail!("cycle-chain-not-a-field", "note {ni} of the E032 for N{root} points at {:?}, which is not a field\n--- source ---\n{}", span.0, src());
             };
             let (f_owner, f_target) = fields_of[*path];
@@ -315,6 +349,7 @@ pub fn small_graph(mut idx: u64) -> Graph {
         edges,
         // an extra, sampled dimension (the enumeration itself is unchanged)
         leaf: (0..n).map(|i| (hash64(&("leaf", idx0, i)) % 4) as u8).collect(),
+        two_modules: n >= 2 && hash64(&("two-modules", idx0)) % 2 == 1,
     }
 }
 
@@ -339,6 +374,7 @@ fn graph4(idx: u64) -> Graph {
         is_enum: (0..4).map(|i| h >> (60 + i) & 1 == 1).collect(),
         edges,
         leaf: (0..4).map(|i| (hash64(&("leaf4", idx, i)) % 4) as u8).collect(),
+        two_modules: hash64(&("two-modules4", idx)) % 2 == 1,
     }
 }
 
@@ -358,6 +394,7 @@ fn random_graph(u: &mut Unstructured) -> Graph {
         is_enum: (0..n).map(|_| pick(u, 3) == 0).collect(),
         edges,
         leaf: (0..n).map(|_| pick(u, 4) as u8).collect(),
+        two_modules: pick(u, 2) == 1,
     }
 }
 
@@ -481,55 +518,62 @@ fn alias_case(cx: &mut CaseCtx, input: Input) -> CaseResult {
 // ---- inheritance graphs ------------------------------------------------------------------------
 
 pub fn inherit_program(idx: u64) -> (Program, bool, bool) {
+    // naming scheme 1: the interfaces live in two modules and repeat each other's simple names
+    // (M1::X, M2::X, M1::Y, M2::Y), bases written globally qualified
+    let two_modules = idx >= 4 * 65536;
+    let idx = idx % (4 * 65536);
     let n = 1 + (idx % 4) as usize;
     let mask = idx / 4;
-    let mut defs = Vec::new();
+    let simple = |i: usize| if two_modules { ["X", "Y"][i / 2].to_owned() } else { format!("I{i}") };
+    let module_of = |i: usize| if two_modules { format!("M{}", 1 + i % 2) } else { "M".to_owned() };
+    let spelled = |i: usize| if two_modules { format!("::{}::{}", module_of(i), simple(i)) } else { simple(i) };
+    let mut defs: Vec<(String, DefM)> = Vec::new();
     let mut edges: BTreeMap<String, BTreeSet<String>> = BTreeMap::new();
     for i in 0..n {
         let mut bases = Vec::new();
         let e = edges.entry(format!("I{i}")).or_default();
         for j in 0..n {
             if mask >> (i * n + j) & 1 == 1 {
-                bases.push(TypeM::named(&format!("I{j}")));
+                bases.push(TypeM::named(&spelled(j)));
                 e.insert(format!("I{j}"));
             }
         }
-        defs.push(DefM::Interface(InterfaceM {
-            pre: Prelude::default(),
-            name: format!("I{i}"),
-            bases,
-            ops: vec![OpM {
+        defs.push((
+            module_of(i),
+            DefM::Interface(InterfaceM {
                 pre: Prelude::default(),
-                idempotent: false,
-                name: format!("op{i}"),
-                params: vec![],
-                ret: RetM::None,
-            }],
-        }));
+                name: simple(i),
+                bases,
+                ops: vec![OpM {
+                    pre: Prelude::default(),
+                    idempotent: false,
+                    name: format!("op{i}"),
+                    params: vec![],
+                    ret: RetM::None,
+                }],
+            }),
+        ));
     }
     let cyclic = !nodes_on_cycles(&edges).is_empty();
     // diamond: some node reachable along two different paths
     let diamond = !cyclic && n == 4 && edges.values().filter(|v| v.len() >= 2).count() >= 1;
-    (
-        Program {
-            files: vec![FileM {
-                path: "string-0".into(),
-                file_attrs: vec![],
-                module: Some(ModuleM {
-                    attrs: vec![],
-                    path: vec!["M".into()],
-                }),
-                defs,
-            }],
-        },
-        cyclic,
-        diamond,
-    )
+    let modules: Vec<String> = if two_modules { vec!["M1".into(), "M2".into()] } else { vec!["M".into()] };
+    let files = modules
+        .iter()
+        .enumerate()
+        .map(|(k, m)| FileM {
+            path: format!("string-{k}"),
+            file_attrs: vec![],
+            module: Some(ModuleM { attrs: vec![], path: vec![m.clone()] }),
+            defs: defs.iter().filter(|d| &d.0 == m).map(|d| d.1.clone()).collect(),
+        })
+        .collect();
+    (Program { files }, cyclic, diamond)
 }
 
 /// n=1: 2 masks, n=2: 16, n=3: 512, n=4: 65536 — indexed as idx%4 = n-1, idx/4 = mask (masks
 /// beyond 2^(n*n) repeat smaller ones for n<4; cheap and harmless)
-pub const INHERIT_TOTAL: u64 = 4 * 65536;
+pub const INHERIT_TOTAL: u64 = 2 * 4 * 65536;
 
 fn inherit_case(cx: &mut CaseCtx, input: Input) -> CaseResult {
     let (p, cyclic, diamond) = inherit_program(input.index());
@@ -537,6 +581,7 @@ fn inherit_case(cx: &mut CaseCtx, input: Input) -> CaseResult {
     cx.nontrivial = true;
     cx.label(if cyclic { "inheritance-loop" } else { "inheritance-acyclic" });
     cx.label_if(diamond, "inheritance-multiple-bases");
+    cx.label_if(p.files.len() == 2, "inheritance-across-two-modules-with-equal-names");
     cx.sample_with(|| json!({"files": texts}));
     let state = compile_strings(&texts, None);
     let diags = diagnostics_of(state, &Default::default());
@@ -560,7 +605,7 @@ impl Check for C05 {
         "C05"
     }
     fn rule(&self) -> String {
-        format!("families: small = every directed graph (self-loops allowed) over n <= 3 struct/enum nodes x every kind assignment x each of the 10 wrapper forms ({SMALL_TOTAL} programs, exhaustive); graph4 = every edge set over 4 nodes with kinds and mixed wrappers derived from the index (65536, exhaustive in the thorough tier, strided in quick); random = proptest choice sequences -> graphs of 2..10 nodes with multi-edges and mixed wrappers (out-degree <= 2); aliases = every assignment of 10 target forms {{int32, alias j, Sequence<alias j>, Dictionary<string, alias j?>, Result<alias j, bool>, Result<bool, alias j>, Result<bool, Sequence<alias j>>, Sequence<Result<alias j?, string>>, Result<alias j, alias j>, Dictionary<string, Result<alias j, Sequence<alias j>>>}} to <= 4 aliases ({ALIAS_TOTAL}; strided in quick); enum nodes carry a field-less enumerator before, between or after the ones with fields (sampled per node); inheritance = every base relation over <= 4 interfaces incl. self-loops ({INHERIT_TOTAL}). Oracle: SCC analysis; E032 <=> a node lies on a cycle, every on-cycle node named by a chain reconstructed from note spans, every chain a real closed path of written fields; alias / inheritance loops rejected, acyclic ones accepted. Non-trivial = >= 1 edge through a non-trivial wrapper or >= 2 nodes on a cycle (all alias / inheritance cases count)")
+        format!("families: small = every directed graph (self-loops allowed) over n <= 3 struct/enum nodes x every kind assignment x each of the 10 wrapper forms ({SMALL_TOTAL} programs, exhaustive); graph4 = every edge set over 4 nodes with kinds and mixed wrappers derived from the index (65536, exhaustive in the thorough tier, strided in quick); random = proptest choice sequences -> graphs of 2..10 nodes with multi-edges and mixed wrappers (out-degree <= 2); aliases = every assignment of 10 target forms {{int32, alias j, Sequence<alias j>, Dictionary<string, alias j?>, Result<alias j, bool>, Result<bool, alias j>, Result<bool, Sequence<alias j>>, Sequence<Result<alias j?, string>>, Result<alias j, alias j>, Dictionary<string, Result<alias j, Sequence<alias j>>>}} to <= 4 aliases ({ALIAS_TOTAL}; strided in quick); enum nodes carry a field-less enumerator before, between or after the ones with fields (sampled per node); inheritance = every base relation over <= 4 interfaces incl. self-loops, in one module and spread over two modules that repeat each other's simple names ({INHERIT_TOTAL}). Oracle: SCC analysis; E032 <=> a node lies on a cycle, every on-cycle node named by a chain reconstructed from note spans, every chain a real closed path of written fields; alias / inheritance loops rejected, acyclic ones accepted. Non-trivial = >= 1 edge through a non-trivial wrapper or >= 2 nodes on a cycle (all alias / inheritance cases count)")
     }
     fn assumptions(&self) -> Vec<String> {
         vec![
@@ -611,7 +656,7 @@ impl Check for C05 {
             Family::bytes("random", 96, tier.pick(1_500, 40_000), move |cx, i| {
                 let mut u = Unstructured::new(i.bytes());
                 let g = random_graph(&mut u);
-                cx.set_key(&(g.n, &g.is_enum, &g.edges));
+                cx.set_key(&(g.n, &g.is_enum, &g.edges, &g.leaf, g.two_modules));
                 graph_case(cx, g)
             }),
             Family::enumerate("aliases", ALIAS_TOTAL, tier.pick(17, 1), alias_case),
